@@ -121,7 +121,8 @@ AnnualRows(D, REG, m, af) ==
 
 \* rows of the summary period that cannot be summarised are re-emitted, sales carrying their
 \* superficial loss explicitly (the automatic adjustment rows are then explicit rows too)
-Reemit(d) == IF d.row.act = "Sell" /\ IsSfl(d) THEN [d.row EXCEPT !.hasSfl = TRUE, !.sflv = d.sfl, !.force = FALSE] ELSE d.row
+\* (a value the user forced stays forced - repaired; it used to come back unforced and be refused on re-reading)
+Reemit(d) == IF d.row.act = "Sell" /\ IsSfl(d) THEN [d.row EXCEPT !.hasSfl = TRUE, !.sflv = d.sfl, !.force = d.row.hasSfl /\ d.row.force] ELSE d.row
 
 SummaryRows(D, REG, cut, annual) ==
   LET latest == LatestInRange(D, cut)
